@@ -28,4 +28,11 @@ PROPS = {
                     "the resume layer (reghttp.Resp.Read/next) is NOT modelled: soundness is proved for an arbitrary underlying reader, so it does not depend on it; it is exercised end-to-end by the registry oracle"],
         "assumptions": COMMON_ASSUME + ["the theorem takes the hash function as an arbitrary parameter (no collision assumption is needed for soundness)"],
     },
+    "C17": {
+        "props": "Props/C17.v", "corr": ["Corr/C17.v"],
+        "trusted": ["monitor of internal/pqueue.Queue (Model/C17_PQueue.v): events are the critical sections under q.mu; sync.Mutex, channels and the select statement of the Go runtime are not modelled",
+                    "hooks in /repo under build tag verif: internal/pqueue/verif_hook.go (snapshot), verifhook/ (bridge)"],
+        "assumptions": COMMON_ASSUME + ["liveness (no deadlock) is proved as: a waiter implies a holder whose release is enabled and wakes exactly one waiter; scheduler fairness and that holders eventually release are assumed",
+                    "AcquireMulti's loop is not a Coq model: per-queue theorems cover its primitive calls; its back-off behaviour (nothing held while blocked, completion, no lost slot) is decided by scripted and random runs of the implementation"],
+    },
 }
